@@ -816,6 +816,8 @@ func (a area) Run(c *core.Ctx) error {
 			default:
 				big := (c.Tier == "thorough" && i%50 == 7)
 				switch k := rng.Intn(100); {
+				case c.Tier == "thorough" && i%200 == 13:
+					r.indexPagesCase(rng)
 				case big:
 					r.bigCase(rng)
 				case k < 48:
@@ -989,6 +991,9 @@ func (r *run) bigCase(rng *rand.Rand) {
 	r.opGet(5)
 	r.opGet(6)
 	r.opGet(7)
+	// data pages are now [1,2]: GC again without a new ack, then ack inside page 1, then into page 2,
+	// each followed by GC twice, an append, reopen and GC on the already-truncated queue
+	r.gcRounds(rng, []int64{3, 5, 7})
 	r.opPut(gen(0, dataPageSize+1)) // rejected
 	if r.c.Tier == "thorough" {
 		r.opPut(gen(1, dataPageSize)) // exactly one page: rolls, fills page 3
@@ -1171,4 +1176,65 @@ func (r *run) boundaryCase(rng *rand.Rand, k, d int) {
 	r.opGet(int64(n) + 1)
 	r.opReopen()
 	r.opGet(int64(n) + 1)
+	// repeated ack+GC rounds across index pages (the index factory's smallest page id moves above 0)
+	r.gcRounds(rng, []int64{int64(n), int64(n) + 1})
+	if k > 1 {
+		r.opPutN(itemsPerPage, lit([]byte{7}), rng)
+		r.gcRounds(rng, []int64{r.q.AppendedSeq() - 5, r.q.AppendedSeq() - 1})
+	}
+}
+
+// readUnacked reads every unacknowledged sequence through the protocol (a sample when there are many).
+func (r *run) readUnacked(rng *rand.Rand) {
+	if r.q == nil {
+		return
+	}
+	ack, app := r.q.AcknowledgedSeq(), r.q.AppendedSeq()
+	if app-ack <= 40 {
+		for s := ack; s <= app; s++ {
+			r.opGet(s)
+		}
+		return
+	}
+	for j := int64(0); j < 8; j++ {
+		r.opGet(ack + j)
+		r.opGet(app - j)
+	}
+	for j := 0; j < 16; j++ {
+		r.opGet(ack + 1 + rng.Int63n(app-ack))
+	}
+	r.scanAll("gc round")
+}
+
+// gcRounds: for every target: ack it, GC, GC again (a factory whose smallest page id is above 0
+// is truncated a second time), append, read back, close/reopen, GC on the reopened queue, read back.
+func (r *run) gcRounds(rng *rand.Rand, acks []int64) {
+	for _, a := range acks {
+		if r.q == nil {
+			return
+		}
+		r.c.Branch("gc-round")
+		r.opAck(a)
+		r.opGC()
+		r.opGC()
+		r.opPut(lit(randBytes(rng, 1+rng.Intn(6))))
+		r.readUnacked(rng)
+		r.opReopen()
+		r.opGC()
+		r.readUnacked(rng)
+	}
+}
+
+// indexPagesCase: several index pages (262144 one-byte messages each) with random ack+GC rounds.
+func (r *run) indexPagesCase(rng *rand.Rand) {
+	r.c.Branch("case-index-pages-gc-rounds")
+	const itemsPerPage = 1024 * 256
+	r.opNew()
+	for round := 0; round < 3; round++ {
+		r.opPutN(itemsPerPage/2+rng.Intn(itemsPerPage), lit([]byte{byte(round + 1)}), rng)
+		ack, app := r.q.AcknowledgedSeq(), r.q.AppendedSeq()
+		a1 := ack + 1 + rng.Int63n(app-ack)
+		a2 := a1 + rng.Int63n(app-a1+1)
+		r.gcRounds(rng, []int64{a1, a2})
+	}
 }
